@@ -68,7 +68,7 @@ def tasks(tier, seed):
     for fl in (["fits", "npy"], ["npy", "txt", "fits"]):
         out.append({"fn": "content", "kwargs": {"formats": fl, "bucket": "pixel"}, "label": "content/pixel/" + "+".join(fl)})
     for how in ("clusters", "array", "both"):
-        out.append({"fn": "outputs_witness", "kwargs": {"cases": [[how, 1], [how, 2]] + ([[how, 4]] if tier == "thorough" else [])}, "label": f"witness/outputs/{how}", "kind": "direct"})
+        out.append({"fn": "outputs_witness", "kwargs": {"cases": [[how, 1], [how, 2], [how, 2, "header"]] + ([[how, 4]] if tier == "thorough" else [])}, "label": f"witness/outputs/{how}", "kind": "direct"})
     return out
 
 
@@ -481,7 +481,8 @@ def _run_with_outputs(case):
 
     from .common import make_ccd
 
-    how, nsteps = case
+    how, nsteps = case[0], case[1]
+    with_header = len(case) > 2 and case[2] == "header"
 
     def hook(d, tag, kw, rec):
         i = d.pipeline_count
@@ -499,22 +500,31 @@ def _run_with_outputs(case):
     tmp = tempfile.mkdtemp(prefix="vx_c19_")
     vxprobes.reset(hook)
     try:
-        out = ExposureOutputs(output_folder=tmp, save_data_to_file=[{"detector.charge.array": ["npy", "fits"]}, {"detector.pixel.array": ["npy"]}, {"detector.image.array": ["fits", "npy"]},
-                                                                    {"detector.signal.array": ["npy"]}, {"detector.photon.array": ["fits"]}])
-        pipe = DetectionPipeline(charge_generation=[ModelFunction(func="vxprobes.probe", name="gen", arguments={"tag": "gen"})])
+        out = ExposureOutputs(output_folder=tmp, save_data_to_file=[{"detector.charge.array": ["npy", "fits"]}, {"detector.pixel.array": ["npy", "fits"]}, {"detector.image.array": ["fits", "npy"]},
+                                                                    {"detector.signal.array": ["fits", "npy"]}, {"detector.photon.array": ["fits"]}])
+        groups = {"charge_generation": [ModelFunction(func="vxprobes.probe", name="gen", arguments={"tag": "gen"})]}
+        if with_header:
+            # the detector carries the header of a raw unsigned 16-bit frame (model load_image, option include_header)
+            src = pathlib.Path(tmp) / "raw_frame.fits"
+            hdu = fits.PrimaryHDU(np.arange(6, dtype=np.uint16).reshape(2, 3) + 1000)
+            hdu.header["OBSERVER"] = "vx"
+            hdu.writeto(src)
+            groups["photon_collection"] = [ModelFunction(func="pyxel.models.photon_collection.load_image", name="load_image",
+                                                         arguments={"image_file": str(src), "include_header": True, "convert_to_photons": False})]
+        pipe = DetectionPipeline(**groups)
         dt = pyxel.run_mode(mode=Exposure(readout=Readout(times=[float(i + 1) for i in range(nsteps)]), outputs=out), detector=make_ccd(2, 3), pipeline=pipe, with_inherited_coords=True)
         folder = pathlib.Path(out.current_output_folder)
         bad = {}
         for f in sorted(folder.iterdir()):
-            if f.suffix not in (".npy", ".fits"):
+            if f.suffix not in (".npy", ".fits") or not f.name.startswith("detector_"):
                 continue
             bucket = f.stem.split("_")[1]
             back = np.load(f) if f.suffix == ".npy" else fits.getdata(f)
             want = np.asarray(dt[f"/bucket/{bucket}"])[-1]
             if back.shape != want.shape or not np.array_equal(np.asarray(back, dtype=float), np.asarray(want, dtype=float)):
                 bad[f.name] = {"file_holds": np.asarray(back).tolist(), "result_bucket": want.tolist()}
-        n_files = len([f for f in folder.iterdir() if f.suffix in (".npy", ".fits")])
-        if n_files != 7:
+        n_files = len([f for f in folder.iterdir() if f.suffix in (".npy", ".fits") and f.name.startswith("detector_")])
+        if n_files != 9:
             bad["files"] = sorted(f.name for f in folder.iterdir())
         return bad
     finally:
@@ -527,15 +537,16 @@ def outputs_witness(tier, seed, cases):
     obligations = []
     for case in cases:
         bad = _run_with_outputs(tuple(case))
-        obligations.append({"id": f"C19/witness/exposure_files_equal_buckets/{case[0]},steps={case[1]}", "verdict": "sat" if bad else "unsat", "info": {"differences": str(bad)[:600]},
-                            "model": {"how": case[0], "steps": case[1]}, "observed": {}})
+        hd = case[2] if len(case) > 2 else "no_header"
+        obligations.append({"id": f"C19/witness/exposure_files_equal_buckets/{case[0]},steps={case[1]},{hd}", "verdict": "sat" if bad else "unsat", "info": {"differences": str(bad)[:600]},
+                            "model": {"how": case[0], "steps": case[1], "header": hd}, "observed": {}})
     return {"obligations": obligations, "paths": len(cases), "reached": {o["id"]: 1 for o in obligations}}
 
 
 def replay(oid, kwargs, model, data):
     """Real file system in a scratch directory."""
     if data["fn"] == "outputs_witness":
-        bad = _run_with_outputs((model["how"], int(model["steps"])))
+        bad = _run_with_outputs((model["how"], int(model["steps"]), model.get("header", "no_header")))
         return bool(bad), {"differences": bad}
     if data["fn"] == "content":
         return _replay_content(kwargs, model)
